@@ -24,6 +24,7 @@ type specCtx struct {
 	retNames   []string
 	calleeView bool
 	bound      []string
+	letT       map[string]types.Type
 	err        string
 }
 
@@ -63,6 +64,9 @@ func (sc *specCtx) trT(x *core.Sexp) (string, types.Type) {
 				return "(- " + a[1:] + ")", nil
 			}
 		}
+		if t, ok := sc.letT[a]; ok && sc.isBound(a) {
+			return a, t
+		}
 		if strings.HasPrefix(a, "\"") {
 			s, err := strconv.Unquote(a)
 			if err != nil {
@@ -77,7 +81,34 @@ func (sc *specCtx) trT(x *core.Sexp) (string, types.Type) {
 	}
 	h := x.Head()
 	args := x.List[1:]
+	if m, ok := g.Spec.Macros[h]; ok && h != "" {
+		if len(args) != len(m.Params) {
+			sc.fail("macro %s takes %d arguments", h, len(m.Params))
+			return "true", nil
+		}
+		sub := map[string]*core.Sexp{}
+		for i, p := range m.Params {
+			sub[p] = args[i]
+		}
+		body := m.Body.Map(func(n *core.Sexp) *core.Sexp {
+			if n.IsAtom() {
+				if r, ok := sub[n.Atom]; ok {
+					return r
+				}
+			}
+			return n
+		})
+		return sc.trT(body)
+	}
 	switch h {
+	case "fnid":
+		if len(args) == 1 && args[0].IsAtom() {
+			if fn := g.P.Lookup(args[0].Atom); fn != nil {
+				return g.U.funcID(fn), nil
+			}
+		}
+		sc.fail("fnid: unknown function %s", args[0])
+		return "0", nil
 	case "old":
 		if len(args) != 1 {
 			sc.fail("old takes one argument")
@@ -124,7 +155,7 @@ func (sc *specCtx) trT(x *core.Sexp) (string, types.Type) {
 			return "0", nil
 		}
 		b := g.base(sc.st, lfs[0].name, g.leafSort(lfs[0].typ), 2, false)
-		return "(select " + b + " (s_arr " + s + "))", nil
+		return "(select " + b + " (s_arr " + s + "))", types.NewArray(u.Elem(), 0) // marker: backing array of u.Elem()
 	case "idx":
 		if len(args) != 2 {
 			sc.fail("idx takes two arguments")
@@ -340,9 +371,22 @@ func (sc *specCtx) trT(x *core.Sexp) (string, types.Type) {
 			return "true", nil
 		}
 		var bs []string
+		if sc.letT == nil {
+			sc.letT = map[string]types.Type{}
+		}
+		newT := map[string]types.Type{}
 		for _, v := range args[0].List {
 			if len(v.List) == 2 {
-				bs = append(bs, "("+v.List[0].Atom+" "+sc.tr(v.List[1])+")")
+				s, t := sc.trT(v.List[1])
+				bs = append(bs, "("+v.List[0].Atom+" "+s+")")
+				newT[v.List[0].Atom] = t
+			}
+		}
+		for k, t := range newT {
+			if t != nil {
+				sc.letT[k] = t
+			} else {
+				delete(sc.letT, k)
 			}
 		}
 		nb := len(sc.bound)
@@ -371,6 +415,15 @@ func (sc *specCtx) trT(x *core.Sexp) (string, types.Type) {
 			}
 		}
 		return "(! " + strings.Join(parts, " ") + ")", nil
+	}
+	// (select <backing array> i) keeps the element type
+	if h == "select" && len(args) == 2 {
+		a, at := sc.trT(args[0])
+		i := sc.tr(args[1])
+		if arrT, ok := at.(*types.Array); ok && arrT.Len() == 0 {
+			return "(select " + a + " " + i + ")", arrT.Elem()
+		}
+		return "(select " + a + " " + i + ")", nil
 	}
 	// generic application; the head may itself be a list (e.g. (_ is V_x), (as const ...))
 	var parts []string
